@@ -53,8 +53,16 @@ def inner(case):
     else:
         challenge = 'tls-alpn-01'
         validate = {'alpn': {'kind': 'unix', 'path': sock_root + '/tacd_{identifier}.sock', 'idle_first': bool(case.get('idle_first'))}}
+    if case.get('tls') and 'alpn' in validate:
+        # validation agents differ in the protocol versions they speak (RFC 8737 asks for TLS 1.2 or higher)
+        validate['alpn'].update({'1.2': {'max_tls': '1.2'}}[case['tls']])
     n = case['issuances']
     plan = {'default': {'lifetimes_s': [100] * (n - 1) + [LONG], 'chain_lens': [2], 'validate': validate}}
+    if case.get('stale'):
+        # a first attempt that breaks off after the proof was published (the CA refuses the challenge request once), and a CA which,
+        # like Boulder, hands the still pending authorization (same token) to the next order: the run meets what the first one left
+        plan['default']['reuse_pending_authz'] = True
+        plan['faults'] = [{'kind': 'challenge', 'action': 'acme_error', 'type': 'unauthorized', 'status': 403, 'max_fires': 1, 'id': 'challenge-refused-once'}]
     proof_dir = '%s/%s/.well-known/acme-challenge' % (http_root, ident)
     pid_file = '%s/tacd_%s.pid' % (pid_root, ident)
     sock_file = '%s/tacd_%s.sock' % (sock_root, ident)
@@ -79,7 +87,7 @@ def inner(case):
     def stop(v):
         po = v.postops()
         succ = [p for p in po if p['kv'].get('is_success') == 'true']
-        return len(succ) >= n or len(po) >= n + 2
+        return len(succ) >= n or len(po) >= n + 2 + (1 if case.get('stale') else 0)
     run = S.run_scenario('C20', case['name'] + '-run', cfg, plan, stop, timeout=40 + 10 * n, settle=0.5,
                          env={'HOME': d, 'GIT_CONFIG_NOSYSTEM': '1'}, umask=case.get('umask'))
     res = {'name': case['name'], 'problems': [], 'validations': [], 'postops': 0}
@@ -102,8 +110,11 @@ def inner(case):
     if len(succ) < n and not pb:
         pb.append(('not-issued', 'only %d of %d issuances succeeded: %s' % (len(succ), n, [p['kv'].get('status', '')[:120] for p in po if p['kv'].get('is_success') != 'true'][:2])))
     # nothing left behind after the clean hooks (observed at every post-operation hook)
+    res['reused_authorizations'] = len([r for r in run.ca_log if (r.get('extra') or {}).get('reused_authz') is not None])
     for k, p in enumerate(po):
         st = p.get('stats') or {}
+        if case.get('stale') and p['kv'].get('is_success') != 'true':
+            continue      # the attempt that was made to break off: nothing was validated, the property speaks of what is left after validation
         if (st.get('proofdir') or {}).get('entries'):
             pb.append(('leftover-proof', 'after attempt %d the proof file is still there: %s' % (k, st['proofdir']['entries'])))
             break
@@ -190,7 +201,8 @@ def gen(tier, r):
         nonlocal k
         cases.append({'name': 'k%d' % k, 'group': group, 'env_tpl': env_tpl, 'git': git, 'issuances': n, 'identifier': idents[k % 3] % k,
                       # a daemonised acmed runs with umask 027; some administrators use 077
-                      'umask': [None, 0o027, 0o077, 0o022][k % 4], 'idle_first': k % 3 == 1})
+                      'umask': [None, 0o027, 0o077, 0o022][k % 4], 'idle_first': k % 3 == 1,
+                      'tls': [None, '1.2'][(k // 2) % 2] if group != 'http-01-echo' else None})
         k += 1
     port = lambda: str(20000 + r.randint(0, 20000))
     # http-01-echo
@@ -198,6 +210,11 @@ def gen(tier, r):
         for git in (False, True):
             for n in (1, 3) if tier == 'quick' else (1, 2, 3):
                 add('http-01-echo', ({'HTTP_ROOT': http_root} if http_root else {}), git, n)
+    # http-01-echo meeting the proof file an aborted attempt left (same token handed out again)
+    for http_root in (None, '$D/webroot'):
+        for git in (False, True):
+            add('http-01-echo', ({'HTTP_ROOT': http_root} if http_root else {}), git, 2)
+            cases[-1]['stale'] = True
     # tacd over TCP: every subset of {TACD_HOST, TACD_PORT, TACD_PID_ROOT}
     for mask in range(8):
         env = {}
@@ -254,10 +271,13 @@ def run(tier):
         chk.count('ca_validations_performed', len(res.get('validations', [])))
         chk.count('ca_validations_ok', len([v for v in res.get('validations', []) if v['ok']]))
         chk.count('attempts_observed', res.get('postops', 0))
+        chk.count('pending_authorizations_handed_out_again', res.get('reused_authorizations', 0))
+        if c.get('tls') and res.get('validations'):
+            chk.count('validations_by_tls_%s_only_agent' % c['tls'], len(res['validations']))
         if c['git']:
             chk.count('git_files_checked', res.get('git_files', 0))
         if res.get('validations'):
-            chk.distinct.add((c['group'], tuple(sorted(c['env_tpl'])), c['git'], c['issuances'], c['identifier'].count('.') + 1, c.get('umask'), c.get('idle_first')))
+            chk.distinct.add((c['group'], tuple(sorted(c['env_tpl'])), c['git'], c['issuances'], c['identifier'].count('.') + 1, c.get('umask'), c.get('idle_first'), c.get('tls'), c.get('stale')))
         if not res['problems']:
             chk.sample({'group': c['group'], 'set': sorted(c['env_tpl']), 'git': c['git'], 'issuances': c['issuances'], 'identifier': c['identifier'],
                         'validations': [(v['type'], v['target'], v['ok']) for v in res['validations']][:3]})
@@ -270,7 +290,7 @@ def run(tier):
                           {k: v for k, v in res.items() if k not in ('replay_dir',)}, res.get('replay_dir'))
     chk.rule = ('each shipped group (http-01-echo, tls-alpn-01-tacd-tcp, tls-alpn-01-tacd-unix) alone and with git, every subset of its documented '
                 'environment variables set to scratch values / left to the documented default (/var/www, /run, identifier, 5001 inside a private mount and '
-                'network namespace), identifiers of 1-3 labels, 1-3 consecutive issuances validated for real by the mock CA; distinct = cases with at least '
+                'network namespace), identifiers of 1-3 labels, 1-3 consecutive issuances validated for real by the mock CA (validation agents with library defaults or speaking TLS 1.2 at most; http-01 proofs met again after an attempt that broke off); distinct = cases with at least '
                 'one validation performed')
     chk.assumptions = ['unshare -m -n works (root)', 'the documented web-server mapping is <HTTP_ROOT>/<identifier>/.well-known/acme-challenge/<token>',
                        'tacd found through PATH is the binary built from /repo (release profile)']
